@@ -208,6 +208,19 @@ def quick_case(op, a, b):
     return True
 
 
+INT_VALUED = ('MOD', 'INTDIV', 'AND', 'OR', 'XOR', 'EQV', 'IMP')
+ONE_FLOAT = (('SINGLE', 'INTEGER'), ('INTEGER', 'SINGLE'), ('DOUBLE', 'LONG'), ('LONG', 'DOUBLE'))
+
+
+def thorough_case(op, a, b):
+    """the integer-valued operators with float operands compose a float->LONG conversion (round, range check) per
+    operand with a bit-vector operation: with one float operand a case takes minutes, with two it was not decided in ten
+    minutes - those pairs are in neither tier (not_covered)"""
+    if op in INT_VALUED and (a in ('SINGLE', 'DOUBLE') or b in ('SINGLE', 'DOUBLE')):
+        return (a, b) in ONE_FLOAT
+    return True
+
+
 CONTRACTS = [
     Contract('expr.binary', ['C01', 'C02', 'C03'],
              ['qbee.expr:BinaryOp.type', 'qbee.expr:BinaryOp._eval_numeric', 'qbee.expr:BinaryOp._eval_string', 'qbee.expr:Expr.fold',
@@ -220,7 +233,7 @@ CONTRACTS = [
     Contract('expr.binary.all_pairs', ['C01', 'C02', 'C03'],
              ['qbee.expr:BinaryOp.type', 'qbee.expr:BinaryOp._eval_numeric', 'qbee.expr:Expr.fold', 'qbee.qvm_codegen:gen_binary_op'],
              body_binary, cases=[(op, a, b) for op in BINOPS for a in NUM for b in NUM
-                                 if (a, b) not in QUICK_PAIRS or not quick_case(op, a, b)],
+                                 if ((a, b) not in QUICK_PAIRS or not quick_case(op, a, b)) and thorough_case(op, a, b)],
              tier='thorough', explorer={'prove_timeout_ms': 120000}),
     Contract('expr.unary', ['C01', 'C02', 'C03'],
              ['qbee.expr:UnaryOp.type', 'qbee.expr:UnaryOp.eval', 'qbee.qvm_codegen:gen_unary_op'], body_unary,
